@@ -92,6 +92,8 @@ def format_tag_value(value: Any) -> str:
     if (
         isinstance(value, str)
         and not re.match(".*[ ,].*", value)
+        # Strings that start like JSON would be parsed as JSON (or rejected) when read back.
+        and not value.startswith(("[", "{", '"'))
         and isinstance(parse_tag_value(value), str)
     ):
         return value
